@@ -136,7 +136,7 @@ class ClassRoot:
         d, c = self.desc, self.cls
         out = []
         if d['kind'] != 'container':
-            for a in ('NAMES', 'ENDOGENOUS', 'EXOGENOUS', 'CHECK', 'LAGS', 'LEADS'):
+            for a in ('NAMES', 'ENDOGENOUS', 'EXOGENOUS', 'CHECK') + (('LAGS', 'LEADS') if d['kind'] == 'model' else ()):
                 out.append((a, getattr(c, a)))
         if d['alias'] is not None:
             out += [('ALIASES', c.ALIASES), ('PREFERRED_NAMES', c.PREFERRED_NAMES)]
@@ -156,7 +156,9 @@ def kind_cells(x, enc):
         index = x.__dict__.get('index', [])
         cells = []
         for k, v in x.__dict__.items():
-            if k.startswith('_') and k[1:] in index:
+            # a series is stored under '_' + name (an ndarray); whether the name is (still) listed in `index` is part of the
+            # observed `index` list, not of the key
+            if k.startswith('_') and (k[1:] in index or isinstance(v, np.ndarray)):
                 cells.append((vkey(enc.code(k[1:])), v))
             else:
                 cells.append((akey(enc.code(k)), v))
@@ -270,8 +272,9 @@ def make_class(desc, idx):
     if desc['kind'] != 'container':
         endo = list(desc['endo'])
         exo = list(desc['exo'])
-        ns.update(ENDOGENOUS=endo, EXOGENOUS=exo, NAMES=endo + exo, CHECK=endo if desc['check'] is None else list(desc['check']),
-                  LAGS=desc['lags'], LEADS=desc['leads'])
+        ns.update(ENDOGENOUS=endo, EXOGENOUS=exo, NAMES=endo + exo, CHECK=endo if desc['check'] is None else list(desc['check']))
+        if desc['kind'] == 'model':          # BaseLinker.LAGS / LEADS are properties (longest lag / lead among the submodels)
+            ns.update(LAGS=desc['lags'], LEADS=desc['leads'])
     if desc['alias'] is not None:
         ns.update(ALIASES=dict(desc['alias']), PREFERRED_NAMES=list(desc['preferred']))
     if desc['tracer']:
@@ -311,6 +314,7 @@ def fill_for(arr):
 def impl(case):
     import numpy as np
     import fsic  # noqa: F401
+    case = _copy.deepcopy(case)      # lists of the case are handed to fsic (trace=[...]) and may be mutated by the probes below
     enc = Enc(case['vocab'])
     classes = [make_class(d, i) for i, d in enumerate(case['classes'])]
     roots = [ClassRoot(c, d) for c, d in zip(classes, case['classes'])]
@@ -599,7 +603,9 @@ def initial_heap(case, enc):
             names = lst(list(d['endo']) + list(d['exo']))
             check = endo if d['check'] is None else lst(d['check'])
             cells += [('NAMES', 'VR %d%%nat' % names), ('ENDOGENOUS', 'VR %d%%nat' % endo), ('EXOGENOUS', 'VR %d%%nat' % exo),
-                      ('CHECK', 'VR %d%%nat' % check), ('LAGS', 'VS %s' % cz(enc.code(d['lags']))), ('LEADS', 'VS %s' % cz(enc.code(d['leads'])))]
+                      ('CHECK', 'VR %d%%nat' % check)]
+            if d['kind'] == 'model':
+                cells += [('LAGS', 'VS %s' % cz(enc.code(d['lags']))), ('LEADS', 'VS %s' % cz(enc.code(d['leads'])))]
         if d['alias'] is not None:
             al = alloc(c_obj('KDict', [(enc.code(k), '(VS %s)' % cz(enc.code(v))) for k, v in d['alias'].items()]))
             pr = lst(d['preferred'])
